@@ -192,6 +192,58 @@ def _assigned_names(stmts):
     return out
 
 
+_MUTATORS = {"append", "extend", "add", "insert", "pop", "remove", "clear", "update", "sort", "reverse", "discard", "setdefault", "popitem"}
+
+
+def _mutated_names(stmts):
+    """local names whose object is changed in place by the statements: x.append(..), x[i] = .., x[i] += .., del x[i]"""
+    out = set()
+
+    def base(n):
+        while isinstance(n, (ast.Subscript, ast.Attribute)):
+            n = n.value
+        return n.id if isinstance(n, ast.Name) else None
+
+    class V(ast.NodeVisitor):
+        def visit_Call(self, n):
+            if isinstance(n.func, ast.Attribute) and n.func.attr in _MUTATORS:
+                b = base(n.func.value)
+                if b is not None:
+                    out.add(b)
+            self.generic_visit(n)
+
+        def visit_Subscript(self, n):
+            if isinstance(n.ctx, (ast.Store, ast.Del)):
+                b = base(n.value)
+                if b is not None:
+                    out.add(b)
+            self.generic_visit(n)
+
+        def visit_FunctionDef(self, n):
+            pass
+
+        def visit_Lambda(self, n):
+            pass
+
+    for s in stmts:
+        V().visit(s)
+    return out
+
+
+def loop_header(s):
+    """fingerprint of a loop statement: what it iterates over / its guard (not its body)"""
+    try:
+        if isinstance(s, ast.For):
+            return "for %s in %s" % (ast.unparse(s.target), ast.unparse(s.iter))
+        return "while %s" % ast.unparse(s.test)
+    except Exception:
+        return "?"
+
+
+EXPECTED_LOOP_HEADERS = {}      # (func key, ordinal) -> header on the tree the contracts were written for (baseline)
+LOOP_HEADERS_SEEN = {}
+
+
 def _loops_in_order(fd):
     loops = []
 
@@ -1209,7 +1261,15 @@ class Interp:
             ordinal = [id(x) for x in loops].index(id(s))
         except ValueError:
             return None, None
-        return self.loop_specs.get((key, ordinal)), (key, ordinal)
+        spec = self.loop_specs.get((key, ordinal))
+        if spec is not None:
+            hdr = loop_header(s)
+            LOOP_HEADERS_SEEN["%s#%d" % (key, ordinal)] = hdr
+            exp = EXPECTED_LOOP_HEADERS.get("%s#%d" % (key, ordinal))
+            if exp is not None and exp != hdr:
+                # the loop contracts were written for another loop structure: they do not apply to this code
+                raise OutOfSubset("loop %d of %s is `%s`, the contracts were written for `%s`" % (ordinal, key, hdr, exp))
+        return spec, (key, ordinal)
 
     def _run_body(self, body, scope):
         """returns 'next' | 'break'"""
@@ -1344,6 +1404,15 @@ class Interp:
             # no invariant supplied: invariant True (every assigned variable is havoced); sound,
             # sufficient for claims that are local to one iteration
             spec = LoopSpec()
+            changed = (_assigned_names(s.body) | _mutated_names(s.body)) - {s.target.id if isinstance(s.target, ast.Name) else ""}
+            if changed:
+                # the abstraction "invariant True" may lose facts the obligations need: a counter-model found from here on
+                # is not evidence of a defect (a proof still is a proof)
+                CTX.imprecise = "loop %s without an invariant changes %s" % (key, sorted(changed))
+                for nm in sorted(_mutated_names(s.body)):
+                    cur = scope.vars.get(nm)
+                    if isinstance(cur, VList):
+                        cur.havoc(cur.kind)
         if not isinstance(s.target, ast.Name):
             raise OutOfSubset("range loop with non-name target")
         var = s.target.id
@@ -1411,6 +1480,14 @@ class Interp:
         old = self._snapshot_old(scope)
         tnames = _assigned_names([ast.Expr(s.target)])
         assigned = _assigned_names(s.body) | (set(spec.modifies) if spec else set()) | tnames
+        if spec is None:
+            changed = (_assigned_names(s.body) | _mutated_names(s.body)) - tnames
+            if changed:
+                CTX.imprecise = "loop %s without an invariant changes %s" % (key, sorted(changed))
+                for nm in sorted(_mutated_names(s.body)):
+                    cur = scope.vars.get(nm)
+                    if isinstance(cur, VList):
+                        cur.havoc(cur.kind)
         self._check_inv(spec, scope, old, {}, "init", key)
         which = CTX.choose(2)
         self._havoc(scope, assigned, spec)
